@@ -366,6 +366,48 @@ def check_opcode(ctx, f, name, arg):
         agg.violation(f"opcode-encoding:{name}", f"{name}({arg!r}).encode() reads back with argument {back!r}"[:300], w)
 
 
+NAME_PAIRS = [("mod", "\u00b5"), ("\uff4f\uff53", "getpid"), ("mod", "\ufb01le"), ("m", "e\u0301x"), ("caf\u00e9", "\u4e2d"), ("pkg.sub", "K"),
+              ("m", "\u00aa"), ("\U0001d41a", "x"), ("mod", "plain")]
+
+
+def check_created_names(ctx, f):
+    """Global / Inst opcodes built by the create helpers (and by the injection helpers' module= / attr=) carry the names
+    they were given, byte for byte as the stock unpickler reads them (UTF-8 lines), or the helper refuses."""
+    agg = ctx.agg
+    for (m, n) in NAME_PAIRS:
+        want_g = b"c" + m.encode() + b"\n" + n.encode() + b"\n"
+        want_i = b"i" + m.encode() + b"\n" + n.encode() + b"\n"
+        tests = [("Global.create", lambda: f.Global.create(m, n).encode(), want_g),
+                 ("Inst.create", lambda: f.Inst.create(m, n).encode(), want_i)]
+
+        def via_insert(first):
+            p = f.Pickled.load(BASE)
+            p.insert_python("x", module=m, attr=n, run_first=first)
+            return next(op.data for op in p if op.info.name == "GLOBAL")
+        tests += [("insert_python(module=,attr=)", lambda: via_insert(True), want_g),
+                  ("insert_python(run_first=False)", lambda: via_insert(False), want_g)]
+
+        def via_append():
+            p = f.Pickled.load(BASE)
+            p.append_python("x", module=m, attr=n)
+            return next(op.data for op in p if op.info.name == "GLOBAL")
+        tests.append(("append_python(module=,attr=)", via_append, want_g))
+        for tname, fn, want in tests:
+            key = h(("created-name|" + tname + "|" + m + "|" + n).encode("utf-8", "surrogatepass"))
+            if not ctx.mine(key.encode()) or not agg.case(key, True, {"helper": tname, "value": f"{m}.{n}", "kind": "name"}):
+                continue
+            try:
+                got = fn()
+            except Exception as e:
+                agg.hist("refusals", f"name:{type(e).__name__}")
+                continue
+            agg.count("created_names_checked")
+            if got != want:
+                agg.violation("created-name-altered",
+                              f"{tname} with module {m!r} / attribute {n!r} produced {got!r}, the literal spelling is {want!r}",
+                              {"helper": tname, "value_repr": f"{m!r}.{n!r}", "kind": "name"})
+
+
 def arg_equiv(name, arg, back):
     if arg is None:
         return back is None
@@ -539,6 +581,7 @@ def run_shard(ctx):
                     check_retry(ctx, f, helper, v)
                 if helper == "insert_python_first":
                     check_composition(ctx, f, v, i % 4)
+    check_created_names(ctx, f)
     for name in sorted(f.OPCODES_BY_NAME):
         for arg in opcode_args(name):
             i += 1
